@@ -452,40 +452,38 @@ impl Exp {
     /// # Returns
     /// String representation with appropriate parentheses based on operator precedence
     pub fn to_string_with_precedence(&self, last_operator: BinOp) -> String {
-        let last_precedence = last_operator.precedence();
+        // without knowing the side, render as a right operand (the stricter case)
+        self.operand_to_string(last_operator, true)
+    }
+
+    /// Renders this expression as the `is_right` operand of `parent`, with the
+    /// parentheses needed for the text to parse back to the same tree: a child of
+    /// lower precedence, a child of equal precedence unless it sits on the side
+    /// its parent associates to and associates the same way, and every
+    /// structural logic expression (which binds weaker than arithmetic).
+    fn operand_to_string(&self, parent: BinOp, is_right: bool) -> String {
         match self {
             Exp::BinOp(op, lhs, rhs) => {
-                let string_lhs = lhs.to_string_with_precedence(*op);
-                let string_rhs = rhs.to_string_with_precedence(*op);
-                let precedence = op.precedence();
-                if precedence < last_precedence {
+                let string_lhs = lhs.operand_to_string(*op, false);
+                let string_rhs = rhs.operand_to_string(*op, true);
+                let same_level_is_safe = op.is_left_associative() == parent.is_left_associative()
+                    && is_right != parent.is_left_associative();
+                let needs_parenthesis = op.precedence() < parent.precedence()
+                    || (op.precedence() == parent.precedence() && !same_level_is_safe);
+                if needs_parenthesis {
                     format!("({} {} {})", string_lhs, op, string_rhs)
                 } else {
-                    //TODO improve this
-                    match last_operator {
-                        BinOp::Add
-                        | BinOp::Mul
-                        | BinOp::Div
-                        | BinOp::And
-                        | BinOp::Or
-                        | BinOp::Xor
-                        | BinOp::Implies
-                        | BinOp::Iff => {
-                            format!("{} {} {}", string_lhs, op, string_rhs)
-                        }
-                        BinOp::Sub => match rhs.is_leaf() {
-                            true => format!("{} {} {}", string_lhs, op, string_rhs),
-                            false => format!("{} {} ({})", string_lhs, op, string_rhs),
-                        },
-                    }
+                    format!("{} {} {}", string_lhs, op, string_rhs)
                 }
+            }
+            Exp::And(_) | Exp::Or(_) | Exp::Xor(_, _) | Exp::Implies(_, _) | Exp::Iff(_, _) => {
+                format!("({})", self)
             }
             _ => self.to_string(),
         }
     }
 }
 
-/// Whether a constant number counts as true, everything except zero does.
 fn num_truthy(value: f64) -> bool {
     value != 0.0
 }
@@ -540,6 +538,9 @@ fn simplify_logic_nary(exps: &[Exp], is_and: bool) -> Exp {
 /// or a negation of a leaf, which are unambiguous on their own.
 fn logic_operand_to_string(exp: &Exp) -> String {
     match exp {
+        // the language wants Boolean literals as logic operands
+        Exp::Number(value) if *value == 1.0 => "true".to_string(),
+        Exp::Number(value) if *value == 0.0 => "false".to_string(),
         exp if exp.is_leaf() => exp.to_string(),
         Exp::Not(inner) if inner.is_leaf() => exp.to_string(),
         exp => format!("({})", exp),
@@ -549,6 +550,9 @@ fn logic_operand_to_string(exp: &Exp) -> String {
 impl fmt::Display for Exp {
     fn fmt(&self, f: &mut fmt::Formatter<'_>) -> fmt::Result {
         let s = match self {
+            // infinities by the names the language gives them
+            Exp::Number(value) if *value == f64::INFINITY => "Infinity".to_string(),
+            Exp::Number(value) if *value == f64::NEG_INFINITY => "MinusInfinity".to_string(),
             Exp::Number(value) => value.to_string(),
             Exp::Variable(name) => name.clone(),
             Exp::Abs(exp) => format!("abs{{ {} }}", exp),
@@ -564,7 +568,7 @@ impl fmt::Display for Exp {
                 .join(" or "),
             Exp::Not(exp) => {
                 if exp.is_leaf() {
-                    format!("not {}", exp)
+                    format!("not {}", logic_operand_to_string(exp))
                 } else {
                     format!("not ({})", exp)
                 }
@@ -599,9 +603,8 @@ impl fmt::Display for Exp {
                     .join(", ")
             ),
             Exp::BinOp(operator, lhs, rhs) => {
-                //TODO: add parenthesis when needed
-                let string_lhs = lhs.to_string_with_precedence(*operator);
-                let string_rhs = rhs.to_string_with_precedence(*operator);
+                let string_lhs = lhs.operand_to_string(*operator, false);
+                let string_rhs = rhs.operand_to_string(*operator, true);
                 format!("{} {} {}", string_lhs, operator, string_rhs)
             }
             Exp::UnOp(op, exp) => {
@@ -651,7 +654,13 @@ impl Objective {
 
 impl fmt::Display for Objective {
     fn fmt(&self, f: &mut fmt::Formatter<'_>) -> fmt::Result {
-        write!(f, "{} {}", self.objective_type, self.rhs)
+        match self.objective_type {
+            // `solve` takes no objective expression in the grammar
+            OptimizationType::Satisfy => write!(f, "{}", self.objective_type),
+            OptimizationType::Min | OptimizationType::Max => {
+                write!(f, "{} {}", self.objective_type, self.rhs)
+            }
+        }
     }
 }
 
